@@ -28,6 +28,7 @@ let run_c14 fields =
 let dispatch kind fields =
   match kind with
   | "C14" -> run_c14 fields
+  | "SESS" -> K_sess.run_sess fields
   | _ -> failwith ("unknown kind " ^ kind)
 
 let () =
